@@ -129,6 +129,32 @@ pub fn race_block() -> impl Strategy<Value = Vec<GenStep>> {
     })
 }
 
+/// the transport stops taking writes for a while (TCP backpressure) around notifications / requests
+pub fn write_stall_block() -> impl Strategy<Value = Vec<GenStep>> {
+    (
+        prop::option::of(0..8usize),
+        prop_oneof![
+            change_names(2).prop_map(|n| vec![GenStep::Plain(Step::Change(n))]),
+            issue(3).prop_map(|i| vec![i]),
+            (change_names(2), issue(3)).prop_map(|(n, i)| vec![GenStep::Plain(Step::Change(n)), i]),
+            (issue(3), change_names(2)).prop_map(|(i, n)| vec![i, GenStep::Plain(Step::Change(n))]),
+        ],
+        prop_oneof![
+            Just(Vec::new()),
+            issue(3).prop_map(|i| vec![i]),
+            change_names(2).prop_map(|n| vec![GenStep::Plain(Step::Change(n))]),
+            advance().prop_map(|a| vec![GenStep::Plain(a)]),
+        ],
+    )
+        .prop_map(|(k, first, second)| {
+            let mut v = vec![GenStep::Plain(Step::StallWrites(k))];
+            v.extend(first);
+            v.extend(second);
+            v.push(GenStep::Plain(Step::ResumeWrites));
+            v
+        })
+}
+
 /// many requests back to back, each inside the 100 ms window of the previous reply
 pub fn burst_block() -> impl Strategy<Value = Vec<GenStep>> {
     (prop_oneof![4 => Just(5usize), 4 => Just(31), 4 => Just(33), 4 => Just(34), 4 => Just(35), 4 => Just(40), 4 => Just(70), 1 => Just(129), 1 => Just(257), 1 => Just(300)], 0..3u8, prop::collection::vec(reply_spec(), 1..3usize), prop_oneof![Just(0u64), Just(50), Just(99)]).prop_map(
@@ -202,6 +228,7 @@ pub fn script(change_weight: u32, max_names: usize, max_steps: usize) -> impl St
                 3 => race_block(),
                 1 => burst_block(),
                 2 => slow_reply_block(),
+                3 => write_stall_block(),
             ],
             1..=max_steps,
         ),
@@ -216,6 +243,7 @@ pub fn fault() -> impl Strategy<Value = Fault> {
         1 => (60..6000usize).prop_map(Fault::EofAfter),
         2 => (0..40usize).prop_map(Fault::ReadErrorAfter),
         3 => (0..4usize).prop_map(Fault::WriteErrorAfter),
+        2 => (0..8usize).prop_map(|short| Fault::WriteInterruptedOnce { short }),
         2 => prop_oneof![Just("foo bar"), Just("ACK nonsense"), Just("list_OK x"), Just(": nokey"), Just("OK "), Just("binary: 2\nabX"), Just("size: 3\nbinary: 3\nabcd")].prop_map(|g| Fault::Garbage(B::from(g))),
     ]
 }
